@@ -20,7 +20,7 @@ struct EpHarness : Harness {
         return {"eintr_retried", "eagain_retried", "zero_return_retried", "partial_then_rest", "hard_error_after_prefix", "octet_driver_through_chunk_api",
                 "chunk_driver_through_octet_api", "aux_smaller_than_n_multiple_rounds", "drain_end_mid_chunk", "drain_to_end_of_stream", "invalid_count_refused"};
     }
-    uint64_t runs(const std::string &, const Tier &t) const override { return t.thorough() ? 40000000 : 3000000; }
+    uint64_t runs(const std::string &, const Tier &t) const override { return t.thorough() ? 12000000 : 3000000; }
 
     Json describe(const std::string &) const override {
         Json d = Json::obj();
